@@ -38,9 +38,14 @@ class Failing:
         self.site = site
         self.extra = extra or {}
 
+    @staticmethod
+    def _clip(v, n: int = 2000):
+        r = repr(v)
+        return v if len(r) <= n else r[:n] + f'... <{len(r)} chars>'
+
     def to_json(self) -> dict:
-        return {'what': self.what, 'input': self.inp, 'expected': self.expected, 'observed': self.observed,
-                'site': self.site, **self.extra}
+        return {'what': self.what[:1000], 'input': self._clip(self.inp, 6000), 'expected': self._clip(self.expected),
+                'observed': self._clip(self.observed), 'site': self.site, **self.extra}
 
 
 class StreamResult:
